@@ -59,6 +59,13 @@ func configLocations() []string {
 	}
 
 	ret = append(ret, appConfigFile) // search in current workdir
+
+	// kong loads the file of the config flag only when the flag itself is on the command line,
+	// so the documented environment variable has to be honoured here
+	if envConfigFile := os.Getenv("PS3NETSRV_CONFIG_FILE"); envConfigFile != "" {
+		ret = append(ret, envConfigFile)
+	}
+
 	return ret
 }
 
